@@ -5,6 +5,8 @@ import difflib, hashlib, json, os, re, subprocess, time
 from rsx import (ExtractError, Source, apply_r9, insert_after_pattern, insert_loop_specs, norm, replace_pattern,
                  rewrite_body, rewrite_sig, tokenize, sig)
 
+ROOT = os.path.normpath(os.path.join(os.path.dirname(os.path.abspath(__file__)), ".."))
+
 VERIFY_MSGS = (
     "postcondition not satisfied",
     "precondition not satisfied",
@@ -179,6 +181,21 @@ def assemble(unit_dir, repo, vacuity=False):
                     emit(f"pub exec const {a['name']}: {ty}\n    ensures {a['ensures']},\n{{ {val} }}")
                 else:
                     emit(f"pub const {a['name']}: {ty} = {val};")
+                i += 1; continue
+            if s.startswith("//@extract_spec "):
+                # a pure Rust fn (from /repo or, with base=verif, from a committed Kani harness) emitted as `open spec fn`
+                a = _attrs(s[len("//@extract_spec "):])
+                base = ROOT if a.get("base") == "verif" else repo
+                pth = os.path.join(base, a["file"])
+                if not os.path.exists(pth):
+                    raise ExtractError(f"anchor lost: file {a['file']}")
+                it = Source(pth).find(a["item"])
+                rl = []
+                sg = rewrite_sig(it.sig_text, rl)
+                sg = re.sub(r"^\s*(pub\s+)?fn\b", "pub open spec fn", sg.strip())
+                g.types.append({"file": a["file"], "item": a["item"], "sha": hashlib.sha256(it.text.encode()).hexdigest()[:16],
+                                "rules": rl + [("R13", "fn -> open spec fn (pure expression body, machine integers read as mathematical)")]})
+                emit(sg + " " + it.body_text)
                 i += 1; continue
             if s.startswith("//@lemma ") or s.startswith("//@fn "):
                 # a committed proof/spec fn whose failure should be attributed: `//@lemma name props=..` until `//@end`
